@@ -184,6 +184,10 @@ RECURSIVE Ref(_,_,_,_), RefConcat(_,_,_,_,_), RefRetry(_,_,_,_,_), RefInners(_,_
 SubjBase == 100
 SubjTrace(j, t0, arr) ==
   CutWF(SelectSeq([x \in 1..Len(arr) |-> IF x > t0 /\ arr[x].s = SubjBase + j THEN TEv(x, arr[x].k, arr[x].v) ELSE TEv(0, "x", 0)], LAMBDA e : e.k # "x"))
+\* the harness's ReplaySubject j (leaf "replaysubject", see Retag): a subscription made at t0 is first handed, at t0, everything the
+\* subject was handed before (items, then the stored terminal), then sees what follows - up to the first terminal
+ReplayTrace(j, t0, arr) ==
+  CutWF(SelectSeq([x \in 1..Len(arr) |-> IF arr[x].s = SubjBase + j THEN TEv(IF x > t0 THEN x ELSE t0, arr[x].k, arr[x].v) ELSE TEv(0, "x", 0)], LAMBDA e : e.k # "x"))
 ProbeTrace(i, m, t0, arr) ==
   CutWF(SelectSeq([x \in 1..Len(arr) |-> IF x > t0 /\ arr[x].s = i /\ arr[x].inst = m THEN TEv(x, arr[x].k, arr[x].v) ELSE TEv(0, "x", 0)], LAMBDA e : e.k # "x"))
 RefConcat(ins, i, t0, m, arr) ==       \* strictly one after another; the next is subscribed when the previous completed
@@ -206,6 +210,7 @@ RefInners(f, its, k, arr, acc) ==      \* the k-th outer item subscribes its inn
 Ref(t, t0, m, arr) ==
   CASE t.op = "probe" -> ProbeTrace(t.a, m, t0, arr)
     [] t.op = "subject" -> SubjTrace(t.a, t0, arr)
+    [] t.op = "replaysubject" -> ReplayTrace(t.a, t0, arr)
     [] t.op = "cold" -> LET sc == t.scripts[IF m < Len(t.scripts) THEN m ELSE Len(t.scripts)] IN [i \in 1..Len(sc) |-> TEv(t0, sc[i].k, sc[i].v)]
     [] t.op = "from_iter" -> DoneAt([i \in 1..Len(t.items) |-> TEv(t0, "n", t.items[i])], t0)
     [] t.op \in {"just", "start"} -> <<TEv(t0, "n", t.a), TEv(t0, "c", 0)>>
@@ -260,7 +265,9 @@ Ref(t, t0, m, arr) ==
 \* ---------------------------------------------------------------- domain of the definition
 \* Ref is claimed only where the instance numbering it assumes is the real one: every probe / cold id occurs once,
 \* at most one resubscribing operator above a leaf, no subject / connectable sources (C10 / C13 own those).
-RECURSIVE LeafIds(_), NoSubj(_,_), ResubDepth(_), AnyProbe2(_), ResubLeavesOK(_), NSubj(_)
+RECURSIVE LeafIds(_), NoSubj(_,_), ResubDepth(_), AnyProbe2(_), ResubLeavesOK(_), NSubj(_), Retag(_)
+\* the kind of the harness subject is part of the case's configuration, not of the term: for a ReplaySubject the leaf is renamed
+Retag(t) == IF t.op = "subject" THEN [t EXCEPT !.op = "replaysubject"] ELSE [t EXCEPT !.in = [i \in 1..Len(t.in) |-> Retag(t.in[i])]]
 LeafIds(t) == IF t.op \in {"probe", "cold"} THEN <<t.a>> ELSE IF t.in = <<>> THEN <<>> ELSE
               LET RECURSIVE Cat(_) Cat(i) == IF i > Len(t.in) THEN <<>> ELSE LeafIds(t.in[i]) \o Cat(i + 1) IN Cat(1)
 Resubscriber(t) == t.op \in {"retry", "retry_when"} \/ (t.op = "flat_map" /\ t.f \in {"probe2", "probe2map"}) \/ (t.op = "on_error_resume_next" /\ t.f = "probe2")
@@ -269,7 +276,7 @@ UsesProbe2(t) == (t.op = "flat_map" /\ t.f \in {"probe2", "probe2map"}) \/ (t.op
 \* (plain = the harness subject is a plain Subject: it is then a hot source like a probe; Behavior / Replay / AsyncSubject are C10's)
 NoSubj(t, plain) == t.op \notin {"rawsubject", "conn", "ready_set_go", "switch_on_next"} /\ (t.op = "subject" => plain) /\ ~(t.op = "flat_map" /\ t.f = "unsub_probe2")
              /\ (t.op = "flat_map" /\ t.f = "obsmat" => t.in[1].op = "window_with_count") /\ \A i \in 1..Len(t.in) : NoSubj(t.in[i], plain)
-NSubj(t) == (IF t.op = "subject" THEN 1 ELSE 0) + (IF t.in = <<>> THEN 0 ELSE LET RECURSIVE Sum(_) Sum(i) == IF i > Len(t.in) THEN 0 ELSE NSubj(t.in[i]) + Sum(i + 1) IN Sum(1))
+NSubj(t) == (IF t.op \in {"subject", "replaysubject"} THEN 1 ELSE 0) + (IF t.in = <<>> THEN 0 ELSE LET RECURSIVE Sum(_) Sum(i) == IF i > Len(t.in) THEN 0 ELSE NSubj(t.in[i]) + Sum(i + 1) IN Sum(1))
 ResubDepth(t) == LET d == IF t.in = <<>> THEN 0 ELSE LET S == { ResubDepth(t.in[i]) : i \in 1..Len(t.in) } IN CHOOSE x \in S : \A y \in S : y <= x
                  IN d + (IF Resubscriber(t) THEN 1 ELSE 0)
 AnyProbe2(t) == UsesProbe2(t) \/ \E i \in 1..Len(t.in) : AnyProbe2(t.in[i])
